@@ -1,5 +1,4 @@
-import QuiverModel.Core.Prelude
-import QuiverModel.Core.VM.Check
+import QuiverModel.Core.VM.Wire
 /-
 qm_c07 — driver for M-Check / M-VM (C07). One request per line:
 
@@ -18,72 +17,7 @@ Instruction tokens: the Rust variant name, then `:`-separated arguments (`Jump:-
 open QM QM.VM
 
 namespace C07Driver
-
-def parseInstr (tok : String) : Option Instr :=
-  match tok.splitOn ":" with
-  | ["Constant", a] => a.toNat?.map .constant
-  | ["Pop"] => some .pop
-  | ["Duplicate"] => some .duplicate
-  | ["Pick", a] => a.toNat?.map .pick
-  | ["Rotate", a] => a.toNat?.map .rotate
-  | ["Reset", a] => a.toNat?.map .reset
-  | ["Load", a] => a.toNat?.map .load
-  | ["Store"] => some .store
-  | ["Tuple", a] => a.toNat?.map .tuple
-  | ["Get", a] => a.toNat?.map .get
-  | ["IsType", a] => a.toNat?.map .isType
-  | ["Jump", a] => a.toInt?.map .jump
-  | ["JumpIf", a] => a.toInt?.map .jumpIf
-  | ["Call"] => some .call
-  | ["TailCall", a] => a.toNat?.map (fun n => .tailCall (n != 0))
-  | ["Function", a] => a.toNat?.map .function
-  | ["Builtin", a] => a.toNat?.map .builtin
-  | ["Equal", a] => a.toNat?.map .equal
-  | ["Not"] => some .not
-  | ["Spawn"] => some .spawn
-  | ["Send"] => some .send
-  | ["Self_"] => some .self_
-  | ["Select"] => some .select
-  | ["Process", a, b] => match a.toNat?, b.toNat? with
-    | some x, some y => some (.process x y)
-    | _, _ => none
-  | _ => none
-
-def parseFn : List Sx → Option Function
-  | cap :: instrs =>
-    match cap.asNat, instrs.mapM (fun x => x.asAtom.bind parseInstr) with
-    | some c, some is => some { instructions := is.toArray, captures := c, typeId := 0 }
-    | _, _ => none
-  | [] => none
-
-def parseProg (items : List Sx) : Option Prog :=
-  let rec go (items : List Sx) (P : Prog) : Option Prog :=
-    match items with
-    | [] => some P
-    | .list [.atom "consts", n] :: rest =>
-      n.asNat.bind (fun k => go rest { P with constants := Array.replicate k (.int 0) })
-    | .list (.atom "tuples" :: ars) :: rest =>
-      (ars.mapM Sx.asNat).bind (fun l => go rest { P with tuples := l.toArray })
-    | .list [.atom "types", n] :: rest => n.asNat.bind (fun k => go rest { P with types := k })
-    | .list [.atom "builtins", n] :: rest => n.asNat.bind (fun k => go rest { P with builtins := k })
-    | .list (.atom "fn" :: f) :: rest =>
-      (parseFn f).bind (fun fn => go rest { P with functions := P.functions.push fn })
-    | _ => none
-  go items { constants := #[], functions := #[], tuples := #[], types := 0, builtins := 0 }
-
-def renderAnn : Option Ann → String
-  | some a => s!"{a.height}:{a.locals}"
-  | none => "_"
-
-def renderAnns (anns : Anns) : String := " ".intercalate (anns.toList.map renderAnn)
-
-def parseAnn (tok : String) : Option (Option Ann) :=
-  if tok = "_" then some none
-  else match tok.splitOn ":" with
-    | [h, l] => match h.toNat?, l.toNat? with
-      | some x, some y => some (some ⟨x, y⟩)
-      | _, _ => none
-    | _ => none
+open QM.VM.Wire
 
 /-- Synthetic process of a given shape for `(step …)`: `h` dummy values on the stack (`top` on
 top if given), `l` locals, one frame of function 0 at counter `pc`. -/
